@@ -552,14 +552,48 @@ def algebra_violations(case, s, top=True) -> list:
     return out
 
 
-def chain_atoms(e, op):
-    """atoms of an expression that is one operator chained over atoms (`a | b | c`, `any_of(a, b, c)`), else None"""
-    if "atom" in e:
-        return [e["atom"]]
-    if e.get("bin") == op:
-        l, r = chain_atoms(e["l"], op), chain_atoms(e["r"], op)
-        return None if l is None or r is None else l + r
-    return None
+def expected_chain(case, e, op):
+    """the algebra the property states, applied step by step to `a <op> b <op> …` (any bracketing) over leaves:
+    same-kind operands flatten, operands keep the order written (first occurrences), duplicates of a class are
+    absorbed, Any makes | and ^ accept anything (`Rule`) and is dropped from &.
+    Returns ("rb",) | ("leaf", key) | ("comb", [keys]) or None when `e` is not such a chain."""
+    def step(parts):
+        seq, seen = [], set()
+        for k in parts:
+            if k == "ANY":
+                if op != "&":
+                    return ("rb",)
+                continue
+            stable = k == "RB" or case["leaves"][k]["kind"] in ("cls", "rule", "dc")
+            if stable:
+                if k in seen:
+                    continue
+                seen.add(k)
+            seq.append(k)
+        if not seq:
+            return ("rb",)
+        if len(seq) == 1:
+            return ("rb",) if seq[0] == "RB" else ("leaf", seq[0])
+        return ("comb", seq)
+
+    def parts(x):
+        return list(x[1]) if x[0] == "comb" else (["RB"] if x[0] == "rb" else [x[1]])
+
+    def atom(i):
+        k = case["leaves"][i]["kind"]
+        return ("leaf", "ANY") if k == "any" else ("rb",) if k == "rulebase" else ("leaf", 0 if k == "none" else i)
+
+    def go(x):
+        if "atom" in x:
+            return atom(x["atom"])
+        if x.get("bin") == op:
+            l, r = go(x["l"]), go(x["r"])
+            return None if l is None or r is None else step(parts(l) + parts(r))
+        if x.get("call") == op and all("atom" in a for a in x["args"]):
+            return step([p for a in x["args"] for p in parts(atom(a["atom"]))])
+        return None
+
+    return go(e)
 
 
 def order_violations(case, s) -> list:
@@ -568,46 +602,26 @@ def order_violations(case, s) -> list:
         return []
     e = case["defs"][0]
     op = e.get("bin") or e.get("call")
-    if op not in ("|", "^", "&"):
+    if op not in ("|", "^", "&") or "atom" in e:
         return []
-    if "call" in e:
-        if not all("atom" in a for a in e["args"]):
-            return []
-        atoms = [a["atom"] for a in e["args"]]
-    else:
-        atoms = chain_atoms(e, op)
-    if not atoms or len(atoms) < 2:
+    want = expected_chain(case, e, op)
+    if want is None:
         return []
-    kinds = [case["leaves"][a]["kind"] for a in atoms]
-    if "rulebase" in kinds:
-        return []
-    if "any" in kinds and op != "&":
-        want = "rulebase"
-    else:
-        seq, seen_stable = [], set()
-        for a, k in zip(atoms, kinds):
-            if k == "any":
-                continue
-            key = 0 if k == "none" else a
-            if k in ("cls", "rule", "dc", "none"):
-                if key in seen_stable:
-                    continue
-                seen_stable.add(key)
-            seq.append(key)
-        want = "rulebase" if not seq else seq
 
     def ref(x):
+        if isinstance(x, dict) and "rulebase" in x:
+            return "RB"
         return x.get("leaf", x.get("annot")) if isinstance(x, dict) and ("leaf" in x or "annot" in x) else None
 
-    if want == "rulebase":
-        got_ok = isinstance(s, dict) and "rulebase" in s
-    elif len(want) == 1:
-        got_ok = ref(s) == want[0]
+    if want[0] == "rb":
+        got_ok = ref(s) == "RB"
+    elif want[0] == "leaf":
+        got_ok = ref(s) == want[1]
     else:
-        got_ok = isinstance(s, dict) and s.get("comb") == op and [ref(a) for a in s["args"]] == want
+        got_ok = isinstance(s, dict) and s.get("comb") == op and [ref(a) for a in s["args"]] == want[1]
     if got_ok:
         return []
-    return [("order", f"operands written {atoms} under '{op}' should give {want} in this order, built {json.dumps(norm_ids(s))[:200]}")]
+    return [("order", f"'{op}'-chain {json.dumps(e)[:160]} should build {want} (operands in the order written), built {json.dumps(norm_ids(s))[:200]}")]
 
 
 def node_law_violations(case, io) -> list:
